@@ -484,3 +484,13 @@ def inline_helpers(ix, fi, depth: int = 2, skip=()):
 def dead(node, fn) -> bool:
     """node sits under a constant condition that cannot hold (`if False:`, `elif 0:`, else-branch of `if True:`)."""
     return any(isinstance(a, ast.Constant) and bool(a.value) != t for a, t in facts_at(node, fn))
+
+
+def unalias(e: ast.AST, fn: ast.AST, depth: int = 4) -> ast.AST:
+    """If `e` is a bare local name, the expression it was last assigned (transitively for names); otherwise `e`."""
+    while isinstance(e, ast.Name) and depth > 0:
+        v = dominating_def(e, fn)
+        if v is None:
+            break
+        e, depth = v, depth - 1
+    return e
